@@ -206,7 +206,9 @@ Section Frame.
         now apply view_del_first. }
       destruct v; try (destruct (enc_kid encf q n _) eqn:E; [eapply G; eauto|discriminate]).
       destruct (p_opt q); try discriminate. now injection H as <-.
-    - destruct v; try discriminate. rewrite (view_enc_kids s q n D _ _ _ H). now apply view_del_all.
+    - destruct v; try discriminate.
+      + injection H as <-. now apply view_del_all.
+      + rewrite (view_enc_kids s q n D _ _ _ H). now apply view_del_all.
     - destruct (is_empty_val v || struct_all_empty v); [now injection H as <-|].
       destruct (enc_kid encf q n v) as [k|] eqn:E; try discriminate. injection H as <-.
       rewrite view_add_kid by (now rewrite (enc_kid_tag _ _ _ _ E)). now apply view_del_first.
@@ -228,6 +230,9 @@ Section Frame.
     destruct (p_kind p) eqn:K, (p_name p) as [n|] eqn:Nm; simpl; intros V; auto;
       try (injection V as V; rewrite ?V; reflexivity).
   Qed.
+
+  Lemma read_member_view p t t' : view (slot_of p) t = view (slot_of p) t' -> read_member decf p t = read_member decf p t'.
+  Proof. intros V. unfold read_member. now rewrite (read_view p t t' V). Qed.
 
   Lemma write_all_frame s : forall ps fs t t',
     Forall (fun q => distinct s (slot_of q)) ps -> write_all encf ps fs t = Some t' -> view s t' = view s t.
@@ -298,10 +303,10 @@ Definition valid_field_gen (ok : val -> Prop) (p : prop) (f : val) : Prop :=
                      (f = VNone /\ p_opt p = true /\ p_hasdef p = false)
   | KText, None => (exists a, f = VAtom a /\ (a <> EMPTY \/ p_conv p = CStr)) \/
                    (f = VNone /\ (p_conv p = CNum \/ p_conv p = CQName) /\ (p_opt p = true \/ p_minlen p = false))
-  | KTextList, Some _ => (exists l, f = VWords l) \/ (f = VNone /\ p_opt p = true)
+  | KTextList, Some _ => exists l, f = VWords l
   | KTextList, None => exists l, f = VWords l
-  | KQNameList, Some _ => exists l, f = VWords l /\ l <> []
-  | KQNameList, None => (exists l, f = VWords l /\ l <> []) \/ f = VNone
+  | KQNameList, Some _ => exists l, f = VWords l
+  | KQNameList, None => exists l, f = VWords l
   | KElemTextList, Some _ => exists l, f = VWords l
   | KSub, Some _ => ok f \/ (f = VNone /\ p_opt p = true /\ p_hasdef p = false)
   | KSubList, Some _ => exists vs, f = VList vs /\ Forall ok vs
@@ -372,9 +377,9 @@ Section ReadWrite.
 
   (* every property kind reads back the (valid) value it wrote into a node whose slot was empty *)
   Lemma read_write p f t : free (slot_of p) t -> valid_field p f ->
-    exists t', write_prop encf p f t = Some t' /\ read_prop decf p t' = Some f.
+    exists t', write_prop encf p f t = Some t' /\ read_member decf p t' = Some f.
   Proof.
-    unfold slot_of, valid_field, valid_field_gen, write_prop, read_prop, find_kid.
+    unfold slot_of, valid_field, valid_field_gen, write_prop, read_member, update_value, read_prop, find_kid.
     destruct (p_kind p) eqn:K, (p_name p) as [n|] eqn:Nm; simpl; intros Fr V; try contradiction.
     - (* KAttr *) destruct V as [(a & ->)|(-> & ->)]; eexists; split; eauto.
       + now rewrite get_set_attr.
@@ -384,20 +389,18 @@ Section ReadWrite.
       + destruct (p_opt p); eexists; split; eauto; [now rewrite get_del_attr|now rewrite get_set_attr].
       + eexists; split; eauto. now rewrite get_set_attr.
     - (* KText, element *) apply free_elem in Fr. destruct V as [(a & -> & Ha)|(-> & Ho & Hd)].
-      + eexists; split; eauto. rewrite kids_upd_free by auto using keeps_set_text. simpl. now apply scalar_back.
+      + eexists; split; eauto. rewrite kids_upd_free by auto using keeps_set_text. simpl. now rewrite scalar_back.
       + rewrite Ho. simpl. eexists; split; eauto. rewrite kids_del_first_free by auto. simpl. now rewrite Hd.
     - (* KText, own text *) destruct V as [(a & -> & Ha)|(-> & Hc & Hm)].
-      + eexists; split; eauto. destruct t; simpl. now apply scalar_back.
+      + eexists; split; eauto. destruct t; simpl. now rewrite scalar_back.
       + assert (E : negb (p_opt p) && p_minlen p = false) by (destruct Hm as [-> | ->]; auto using andb_false_r).
         rewrite E. eexists; split; eauto. destruct t; simpl. destruct Hc as [-> | ->]; reflexivity.
-    - (* KTextList, element *) apply free_elem in Fr. destruct V as [(l & ->)|(-> & ->)].
-      + eexists; split; eauto. rewrite kids_upd_free by auto using keeps_set_text. simpl. now rewrite words_back.
-      + eexists; split; eauto. now rewrite kids_del_first_free.
+    - (* KTextList, element *) apply free_elem in Fr. destruct V as (l & ->).
+      eexists; split; eauto. rewrite kids_upd_free by auto using keeps_set_text. simpl. now rewrite words_back.
     - (* KTextList, own text *) destruct V as (l & ->). eexists; split; eauto. destruct t; simpl. now rewrite words_back.
-    - (* KQNameList, element *) apply free_elem in Fr. destruct V as (l & -> & Hl).
-      eexists; split; eauto. rewrite kids_upd_free by auto using keeps_set_text. simpl. destruct l; [congruence|reflexivity].
-    - (* KQNameList, own text *) destruct V as [(l & -> & Hl)| ->]; eexists; split; eauto; destruct t; simpl; auto.
-      destruct l; [congruence|reflexivity].
+    - (* KQNameList, element *) apply free_elem in Fr. destruct V as (l & ->).
+      eexists; split; eauto. rewrite kids_upd_free by auto using keeps_set_text. simpl. destruct l; reflexivity.
+    - (* KQNameList, own text *) destruct V as (l & ->). eexists; split; eauto. destruct t; simpl. destruct l; reflexivity.
     - (* KElemTextList *) apply free_elem in Fr. destruct V as (l & ->). destruct l as [|a l].
       + eexists; split; eauto. now rewrite Fr.
       + eexists; split; eauto. rewrite kids_fold_text, kids_del_all. simpl. f_equal. f_equal.
@@ -407,7 +410,7 @@ Section ReadWrite.
       + destruct (enc_kid_ok p n f Hn) as (k & E & T & D).
         assert (Hv : match f with VNone => False | _ => True end) by (destruct f; simpl in Hn; auto).
         destruct f; try contradiction; rewrite E; eexists; split; eauto;
-          rewrite kids_add, kids_del_first_free by auto; simpl; auto.
+          rewrite kids_add, kids_del_first_free by auto; simpl; rewrite D; reflexivity.
       + eexists; split; eauto. rewrite Fr. simpl. unfold absent_struct. now rewrite Hd.
     - (* KSubList *) destruct V as (vs & -> & Fv).
       destruct (enc_kids_ok p n vs (del_all n t) Fv) as (t' & E & ks & Kk & D).
@@ -415,7 +418,7 @@ Section ReadWrite.
     - (* KSubNonEmpty *) apply free_elem in Fr. destruct V as (Hn & He).
       assert (Hv : is_empty_val f = false) by (destruct f; simpl in Hn; try contradiction; reflexivity).
       rewrite Hv, He. simpl. destruct (enc_kid_ok p n f Hn) as (k & E & T & D). rewrite E.
-      eexists; split; eauto. rewrite kids_add, kids_del_first_free by auto. simpl. auto.
+      eexists; split; eauto. rewrite kids_add, kids_del_first_free by auto. simpl. now rewrite D.
     - (* KExt *) apply free_elem in Fr. destruct V as (ts & ->). destruct ts as [|x ts].
       + eexists; split; eauto. now rewrite Fr.
       + eexists; split; eauto. rewrite kids_upd_free by auto using keeps_set_kids. reflexivity.
@@ -427,3 +430,238 @@ Section ReadWrite.
       + eexists; split; eauto. rewrite kids_upd_free by auto using keeps_set_kids. reflexivity.
   Qed.
 End ReadWrite.
+Lemma free_transfer s t t' : view s t' = view s t -> free s t -> free s t'.
+Proof. unfold free. congruence. Qed.
+
+Lemma no_clash_cons s ss : no_clash (s :: ss) = true -> Forall (distinct s) ss /\ no_clash ss = true.
+Proof.
+  simpl. intros H. apply andb_prop in H as [H1 H2]. split; auto.
+  apply negb_true_iff in H1. apply Forall_forall. intros x Hx. unfold distinct.
+  destruct (slot_eqb s x) eqn:E; auto.
+  assert (existsb (slot_eqb s) ss = true) by (apply existsb_exists; eauto). congruence.
+Qed.
+
+Lemma write_prop_tag encf p v t t' : write_prop encf p v t = Some t' -> t_tag t' = t_tag t.
+Proof.
+  assert (G : forall vs t t', enc_kids encf p (match p_name p with Some n => n | None => XSI end) vs t = Some t' -> t_tag t' = t_tag t).
+  { induction vs as [|x r IH]; simpl; intros u u' H; [now injection H as <-|].
+    destruct (enc_kid encf p _ x); try discriminate. rewrite (IH _ _ H). now destruct u. }
+  assert (F : forall n l u, t_tag (fold_left (fun t a => add_kid (Node n [] (atom_txt a) []) t) l u) = t_tag u).
+  { induction l as [|a r IH]; simpl; intros u; auto. rewrite IH. now destruct u. }
+  unfold write_prop. destruct t as [g a x k].
+  destruct (p_kind p), (p_name p) as [n|]; simpl in *; intros H;
+    repeat match type of H with
+           | None = Some _ => discriminate
+           | Some _ = Some _ => injection H as <-
+           | context [match ?v with _ => _ end] => destruct v eqn:?; simpl in *
+           end; auto; try (rewrite F; reflexivity).
+  - apply G in H. exact H.
+Qed.
+
+Lemma write_all_tag encf : forall ps fs t t', write_all encf ps fs t = Some t' -> t_tag t' = t_tag t.
+Proof.
+  induction ps as [|p ps IH]; intros [|f fs] t t' H; simpl in H; try discriminate.
+  - now injection H as <-.
+  - destruct (write_prop encf p f t) as [t1|] eqn:E; try discriminate.
+    rewrite (IH _ _ _ H). eapply write_prop_tag; eauto.
+Qed.
+
+Lemma Forall2_impl' {A B} (P Q : A -> B -> Prop) : (forall a b, P a b -> Q a b) ->
+  forall l l', Forall2 P l l' -> Forall2 Q l l'.
+Proof. intros H l l' F; induction F; constructor; auto. Qed.
+
+Section ClassRT.
+  Variable encf : val -> name -> option tree.
+  Variable decf : N -> tree -> option val.
+  Hypothesis enc_tag : forall v n k, encf v n = Some k -> t_tag k = n.
+
+  (* a class whose members occupy pairwise different slots reads back all of them *)
+  Lemma class_rt : forall ps fs t, no_clash (map slot_of ps) = true ->
+    Forall2 (valid_field encf decf) ps fs -> Forall (fun p => free (slot_of p) t) ps ->
+    exists t', write_all encf ps fs t = Some t' /\ read_all decf ps t' = Some fs /\
+               forall s, Forall (fun p => distinct s (slot_of p)) ps -> view s t' = view s t.
+  Proof.
+    induction ps as [|p ps IH]; intros fs t NC V Fr.
+    - inversion V; subst. exists t. simpl. auto.
+    - inversion V as [|? f ? fs' Vp Vr]; subst. inversion Fr as [|? ? Fp Frr]; subst.
+      simpl in NC. apply no_clash_cons in NC as [Dp NC].
+      destruct (read_write encf decf p f t Fp Vp) as (t1 & W & R).
+      assert (Fr1 : Forall (fun q => free (slot_of q) t1) ps).
+      { rewrite Forall_forall in *. intros q Hq. eapply free_transfer; [|apply Frr; auto].
+        eapply write_frame; eauto. apply distinct_sym. apply Dp. apply in_map. auto. }
+      destruct (IH fs' t1 NC Vr Fr1) as (t' & W' & R' & Vw).
+      exists t'. simpl. rewrite W. split; auto. split.
+      + rewrite R'. rewrite (read_member_view decf p t' t1), R; auto.
+        apply Vw. rewrite Forall_forall in *. intros q Hq. apply Dp. apply in_map. auto.
+      + intros s Fs. inversion Fs; subst. rewrite Vw by auto. eapply write_frame; eauto.
+  Qed.
+End ClassRT.
+
+(* ------------------------------------------------------------------ nested values: induction on the depth *)
+Section Depth.
+  Variable classes : list cls.
+
+  Definition wf_slots (c : cls) : Prop :=
+    no_clash (map slot_of (c_props c)) = true /\ forallb not_xsi (c_props c) = true /\
+    forallb not_self (c_props c) = true.
+
+  Hypothesis Hwf : forall c, In c classes -> wf_slots c.
+
+  Lemma lookup_in_spec l cid c : lookup_in l cid = Some c -> In c l /\ c_id c = cid.
+  Proof.
+    induction l as [|x r IH]; simpl; try discriminate.
+    destruct (N.eqb (c_id x) cid) eqn:E.
+    - intros H. injection H as <-. apply N.eqb_eq in E. auto.
+    - intros H. destruct (IH H). auto.
+  Qed.
+
+  (* a value all of whose members are in normal form, down to depth n *)
+  Fixpoint valid (n : nat) (v : val) : Prop :=
+    match n with
+    | O => False
+    | S n' => match v with
+              | VStruct cid fs => exists c, lookup classes cid = Some c /\
+                                            Forall2 (valid_field_gen (valid n')) (c_props c) fs
+              | _ => False
+              end
+    end.
+
+  Lemma enc_keeps_tag n : forall v tag k, enc classes n v tag = Some k -> t_tag k = tag.
+  Proof.
+    destruct n; simpl; intros v tag k H; try discriminate.
+    destruct v; try discriminate. destruct (lookup classes cid); try discriminate.
+    apply write_all_tag in H. exact H.
+  Qed.
+
+  Lemma xsi_distinct p : not_xsi p = true -> not_self p = true -> distinct (slot_of p) (SAttr XSI).
+  Proof.
+    unfold not_xsi, not_self, distinct. destruct (slot_of p); simpl; try discriminate; auto.
+    intros H _. apply negb_true_iff in H. exact H.
+  Qed.
+
+  Theorem roundtrip n : forall v, valid n v -> nested_ok (enc classes n) (dec classes n) v.
+  Proof.
+    induction n as [|n IH]; intros v Hv; [destruct Hv|].
+    destruct v as [| | | |cid fs| |]; try (now destruct Hv). destruct Hv as (c & Lc & Vf).
+    destruct (lookup_in_spec _ _ _ Lc) as [Hin Hid]. destruct (Hwf c Hin) as (NC & NX & NS).
+    assert (Vf' : Forall2 (valid_field (enc classes n) (dec classes n)) (c_props c) fs).
+    { eapply Forall2_impl'; [|exact Vf]. intros p f. apply valid_field_mono. exact IH. }
+    intros tag.
+    assert (Fr : Forall (fun p => free (slot_of p) (Node tag [] None [])) (c_props c)).
+    { apply Forall_forall. intros p _. unfold free. destruct (slot_of p); reflexivity. }
+    destruct (class_rt (enc classes n) (dec classes n) (enc_keeps_tag n) (c_props c) fs _ NC Vf' Fr)
+      as (t' & W & R & Vw).
+    assert (DX : Forall (fun p => distinct (SAttr XSI) (slot_of p)) (c_props c)).
+    { apply Forall_forall. intros p Hp. apply distinct_sym. rewrite forallb_forall in NX, NS. apply xsi_distinct; auto. }
+    exists t'. simpl. rewrite Lc. split; [exact W|]. split; [apply write_all_tag in W; exact W|].
+    split; [specialize (Vw (SAttr XSI) DX); unfold view in Vw; injection Vw as Vw; exact Vw|].
+    split; [now rewrite R|].
+    intros x. assert (E : read_all (dec classes n) (c_props c) (set_attr XSI x t') = read_all (dec classes n) (c_props c) t').
+    { clear - NX NS. induction (c_props c) as [|p ps IHp]; simpl; auto.
+      simpl in NX, NS. apply andb_prop in NX as [X1 X2]. apply andb_prop in NS as [S1 S2].
+      rewrite IHp by auto. rewrite (read_member_view (dec classes n) p (set_attr XSI x t') t'); auto.
+      apply view_set_attr. apply xsi_distinct; auto. }
+    now rewrite E, R.
+  Qed.
+
+  (* as_etree_node / mk_node followed by from_node is the identity on values in normal form *)
+  Corollary class_roundtrip n cid fs tag : valid n (VStruct cid fs) ->
+    exists t, enc classes n (VStruct cid fs) tag = Some t /\ dec classes n cid t = Some (VStruct cid fs).
+  Proof.
+    intros V. destruct (roundtrip n _ V tag) as (k & E & _ & _ & D & _). eauto.
+  Qed.
+End Depth.
+(* ------------------------------------------------------------------ absent members *)
+(* what a member reads as when its attribute / element is not in the XML *)
+Definition absent_value (p : prop) : val :=
+  match p_kind p with
+  | KAttr | KCurTs | KAny => VNone
+  | KAttrList | KElemTextList | KTextList | KQNameList => VWords []
+  | KText | KSub | KSubNonEmpty => if p_hasdef p then VDflt else VNone
+  | KSubList => VList []
+  | KExt | KAnyList => VOpaque []
+  end.
+
+Lemma read_absent decf p n t : p_name p = Some n -> free (slot_of p) t ->
+  read_member decf p t = Some (absent_value p).
+Proof.
+  unfold slot_of, read_member, update_value, read_prop, find_kid, absent_value, absent_struct.
+  intros -> Fr. destruct (p_kind p); simpl in *;
+    try (apply free_attr in Fr; rewrite Fr; reflexivity);
+    try (apply free_elem in Fr; rewrite Fr; reflexivity).
+Qed.
+
+(* ------------------------------------------------------------------ the computed check implies the hypothesis *)
+Lemma wf_class_slots c : wf_class c = true -> wf_slots c.
+Proof.
+  unfold wf_class, wf_slots. intros H. repeat (apply andb_prop in H as [H ?]). auto.
+Qed.
+
+Lemma wf_filter (l : list cls) : forall c, In c (filter wf_class l) -> wf_slots c.
+Proof. intros c H. apply filter_In in H as [_ H]. now apply wf_class_slots. Qed.
+
+(* writing the value that was read yields the same XML again *)
+Lemma second_write_identical classes (Hwf : forall c, In c classes -> wf_slots c) n cid fs tag t :
+  valid classes n (VStruct cid fs) -> enc classes n (VStruct cid fs) tag = Some t ->
+  exists v, dec classes n cid t = Some v /\ enc classes n v tag = Some t.
+Proof.
+  intros V E. destruct (class_roundtrip classes Hwf n cid fs tag V) as (t' & E' & D).
+  assert (t' = t) by congruence. subst t'. eauto.
+Qed.
+
+(* ------------------------------------------------------------------ a small concrete schema (non-vacuity, refutations) *)
+Open Scope N_scope.
+(* class 1 "CodedValue": Extension, list of class-2 elements (name 11), attribute Code (mandatory), attribute list
+   class 2 "LocalizedText": own text, attribute Lang;  class 3 derives class 2 by an extra attribute (xsi:type)
+   class 4 "State": attribute, defaulted sub-element of class 1 (name 13), text-element list, current-time attribute *)
+Definition demo_classes : list cls :=
+  [ mkCls 1 [mkProp KExt (Some 10) COther true false false 0 false;
+             mkProp KSubList (Some 11) COther true false false 2 false;
+             mkProp KAttr (Some 20) CStr false false false 0 false;
+             mkProp KAttrList (Some 21) COther true false false 0 false] [10; 11];
+    mkCls 2 [mkProp KText None CStr false false false 0 false; mkProp KAttr (Some 22) CStr true false false 0 false] [];
+    mkCls 3 [mkProp KText None CStr false false false 0 false; mkProp KAttr (Some 22) CStr true false false 0 false;
+             mkProp KAttr (Some 23) CNum true false false 0 false] [];
+    mkCls 4 [mkProp KAttr (Some 24) CStr false false false 0 false;
+             mkProp KSub (Some 13) COther false true true 1 false;
+             mkProp KElemTextList (Some 14) COther true false false 0 false;
+             mkProp KCurTs (Some 25) CNum true false false 0 false] [13; 14] ].
+
+Definition demo_value : val :=
+  VStruct 4 [VAtom 7;
+             VStruct 1 [VOpaque [Node 99 [(1, [5%Z])] (Some [6%Z]) []];
+                        VList [VStruct 2 [VAtom 30; VNone]; VStruct 3 [VAtom EMPTY; VAtom 31; VAtom 32]];
+                        VAtom 8; VWords [40%Z; 41%Z]];
+             VWords [50%Z; EMPTY; 51%Z];
+             VAtom 1].
+
+Lemma demo_wf : forallb wf_class demo_classes = true.
+Proof. reflexivity. Qed.
+
+Lemma demo_roundtrip :
+  exists t, enc demo_classes 3 demo_value 100 = Some t /\ dec demo_classes 3 4 t = Some demo_value /\
+            t = Node 100 [(24, [7%Z]); (25, [1%Z])] None
+                  [Node 13 [(20, [8%Z]); (21, [40%Z; 41%Z])] None
+                     [Node 10 [] None [Node 99 [(1, [5%Z])] (Some [6%Z]) []];
+                      Node 11 [] (Some [30%Z]) [];
+                      Node 11 [(22, [31%Z]); (23, [32%Z]); (XSI, [3%Z])] None []];
+                   Node 14 [] (Some [50%Z]) []; Node 14 [] None []; Node 14 [] (Some [51%Z]) []].
+Proof. eexists. split; [reflexivity|]. split; reflexivity. Qed.
+
+(* an absent defaulted sub-element reads as the declared default, an absent list as the empty list *)
+Lemma demo_absent :
+  dec demo_classes 3 4 (Node 100 [(24, [7%Z])] None []) = Some (VStruct 4 [VAtom 7; VDflt; VWords []; VNone]).
+Proof. reflexivity. Qed.
+
+(* WITHOUT the well-formedness condition the statement is false: two members bound to the same element name
+   (pm_types.ClinicalInfo.Type / .Code before the repair) -- the value written is not the value read *)
+Definition clash_classes : list cls :=
+  [ mkCls 1 [mkProp KSub (Some 16) COther true false false 2 false; mkProp KSub (Some 16) COther true false false 2 false] [];
+    mkCls 2 [mkProp KAttr (Some 20) CStr false false false 0 false] [] ].
+
+Lemma duplicate_slot_refuted :
+  wf_class (mkCls 1 [mkProp KSub (Some 16) COther true false false 2 false;
+                     mkProp KSub (Some 16) COther true false false 2 false] []) = false /\
+  exists t, enc clash_classes 3 (VStruct 1 [VNone; VStruct 2 [VAtom 5]]) 100 = Some t /\
+            dec clash_classes 3 1 t = Some (VStruct 1 [VStruct 2 [VAtom 5]; VStruct 2 [VAtom 5]]).
+Proof. split; [reflexivity|]. eexists. split; reflexivity. Qed.
